@@ -6,29 +6,55 @@ from common import sh2
 
 LEVEL = "proof"
 MANIFEST = {
-    "technique": "Coq proof over hand-written Gallina models of examples/segmenter (segment-start selection + interval "
-                 "computation), examples/resegmenter Resegment, MediaSegment.Fragmentify and combine-segs' multiplexing; "
-                 "differential correspondence (extracted OCaml vs the Go functions through a tagged test driver and vs the "
-                 "built tools); failing-input search running the built tools on synthesized files",
-    "level_text": "Theorems (coq/c11/C11Theorems.v), for all inputs: (segmenter, text after fix 34ef7ec) for every file, every "
-                  "track and every target duration, whenever the tool gets to writing, the per-track sample intervals tile "
-                  "1..N and fetching them returns every sample once, in order (the pinned text is refuted by a witness); the "
-                  "reference track's segments start at the chosen sync samples (guard: chosen sync samples have non-zero "
-                  "duration; unguarded statement refuted); Resegment: output segments concatenate to the input for every "
-                  "duration, every segment after the first is non-empty and starts with a sync sample with pts >= d*seq; "
-                  "Fragmentify: never fails, conserves, no empty fragment; both read back with the input's decode times when "
-                  "the input's decode times are contiguous (refuted for inputs with a decode-time gap); combine-segs: for "
-                  "distinct track ids reading each track back from the multi-track fragment returns its input list, and "
-                  "reading an input with trex = nil equals reading it with its trex exactly when no field relies on trex "
-                  "defaults (refuted otherwise). Only explored by the search on the real tools, not proved: writing samples "
-                  "into fragments, encoding, decoding and GetFullSamples is the identity on (bytes, dur, flags, cto) and on "
-                  "decode times up to the retiming above; sample data fetch from stsc/stco/stsz; flag translation from "
-                  "stss/sdtp.",
+    "technique": "Coq proof over hand-written Gallina models of examples/segmenter (segment-start selection, interval "
+                 "computation, the per-sample fetch GetFullSamplesForInterval / GetSamplesForInterval / copyMediaData and "
+                 "the three writers), examples/resegmenter Resegment, MediaSegment.Fragmentify and combine-segs' multiplexing, "
+                 "composed with the theorems of C09 (sample-table queries = naive expansion) and C05 (fragment add-history -> "
+                 "encode -> decode -> GetFullSamples round trip), both imported read-only; differential correspondence "
+                 "(extracted OCaml vs the Go functions through a tagged test driver and vs the built tools, incl. the decoded "
+                 "segments the built segmenter writes in its four modes); failing-input search running the built tools on "
+                 "synthesized (and truncated) files",
+    "level_text": "Theorems (coq/c11/C11Theorems.v), for all inputs. Segmenter (text after fixes 34ef7ec, 8eb6c19): for every file, "
+                  "track and target duration, whenever the tool gets to writing, the per-track sample intervals tile 1..N "
+                  "(pinned text refuted) and all tracks get the same number >= 1 of intervals; the reference track's segments "
+                  "start at the chosen sync samples (guard: non-zero duration; unguarded refuted). End to end: for every "
+                  "track whose tables are consistent (C09Spec.consistent) and point into the file (data_ok), mdat in memory or "
+                  "lazy: the per-sample fetch (stsc chunk lookup, stco/co64 offset + sizes of the chunk's earlier samples, "
+                  "stsz, stts, ctts, stss/sdtp flag translation, bytes from mdat.Data or the ReadSeeker) returns sample n of "
+                  "the naive expansion (C11_fetch_full_sample/_interval/_meta_interval); copyMediaData writes exactly the bytes "
+                  "of samples a..b (C11_copy_media_data, one chunk-offset box); and for the in-memory writer "
+                  "(C11_segmenter_end_to_end), the -lazy writer (C11_segmenter_lazy_end_to_end: metadata-only samples + "
+                  "copied bytes, tfdt shown to be the first sample's decode time) and the multiplexed writer "
+                  "(C11_segmenter_mux_end_to_end, any number of tracks): whenever the writer returns without error and every "
+                  "fragment stays below 2 GiB, concatenating over all output segments GetFullSamples(decode(encode(fragment "
+                  "built from interval i))) equals the expansion of the input track: bytes, size, duration, flags, composition "
+                  "offset and decode time, trun optimisation on or off, any file position, any trex defaults (C05's round-trip "
+                  "theorems supply the fragment step; its hypotheses Size = len(Data) and decode times consistent with the "
+                  "durations are PROVED for runs of the expansion: C11_expansion_roundtrip_hyps). For every file at all "
+                  "(inconsistent, truncated) a writer that returns without error has fetched every interval completely "
+                  "(C11_segmenter_fetches_all, C11_segmenter_mux_fetches_all; the pinned text is refuted: "
+                  "C11_fetch_error_swallowed_refuted, fixed in 8eb6c19). Resegment / Fragmentify: output pieces concatenate "
+                  "to the input for every duration, later segments start with a sync sample with pts >= d*seq, Fragmentify "
+                  "never fails and makes no empty fragment; the DECODED output pieces (CreateFragment + "
+                  "AddFullSampleToTrack + Encode + decode + GetFullSamples) concatenate to the input samples when the input's "
+                  "decode times are contiguous and fit uint64 (C11_resegment_end_to_end, C11_fragmentify_end_to_end; with a "
+                  "decode-time gap refuted). combine-segs: reading each track back from the multi-track fragment returns its "
+                  "input list, and reading with trex = nil equals reading with the trex exactly when no field relies on trex "
+                  "defaults. Only explored by correspondence/search, not proved: the byte-level box codecs of moof/mdat/styp and "
+                  "DecodeFile's regrouping of a box stream into segments and fragments (C05 proves the tfhd/trun codecs and is "
+                  "adding the segment level); reading an EMPTY fragment (Resegment's first piece when the first sample lies "
+                  "beyond the first boundary); init segments (stsd copy, trex); a track carrying both stco and co64 in the "
+                  "-lazy writer; combine-segs at the decoded level.",
     "level_note": "Trusted: Coq kernel, extraction (ExtrOcamlBasic), the OCaml/Go glue, the file synthesizer and reader in the "
                   "harness (they use mp4ff's own box encoders/decoders and GetFullSamples). The models are hand transcriptions "
-                  "tied to the code by differential runs on generated inputs only. uint64 time accumulators are not wrapped "
-                  "in the model (assumption: total duration < 2^63 ticks).",
+                  "tied to the code by differential runs on generated inputs only; C11FetchModel runs on C09Model's table "
+                  "structs and C05FragModel's fragments, whose own correspondence is checked by C09 and C05. The two views of a "
+                  "trak (C11Model.track for the plan, C09Model.tables for the fetch) are related by the definition itrack_of, "
+                  "exercised by the W correspondence. uint64 time accumulators are not wrapped in C11Model (assumption: total "
+                  "duration < 2^63 ticks; C09Spec.consistent implies it for the fetch). The writers are modelled per track "
+                  "(the tool interleaves tracks and stops at the first error of any track).",
 }
+
 
 TMP = os.path.join(common.BUILD, "c11-tmp-%d" % os.getpid())
 
@@ -65,14 +91,21 @@ def run(ctx):
         "(GetDecodeTime, GetSampleNrAtTime), mp4/ctts.go (GetCompositionTimeOffset as a linear scan), "
         "examples/resegmenter/resegment.go (Resegment), mp4/mediasegment.go (Fragmentify), "
         "examples/combine-segs/main.go + Fragment.AddSampleToTrack + TrunBox.AddSampleDefaultValues",
+        "model: coq/c11/C11FetchModel.v is a hand transcription of examples/segmenter/segmenter.go (GetFullSamplesForInterval, "
+        "GetSamplesForInterval; TranslateSampleFlagsForFragment = C09Model.create_sample_flags) and segment.go "
+        "(copyMediaData, the bodies of makeSingleTrackSegments / makeSingleTrackSegmentsLazyWrite / makeMultiTrackSegments) "
+        "on top of coq/c09/C09Model.v (table structs and queries) and coq/c05/C05Model.v + C05FragModel.v (fragment "
+        "operations, Encode, decoded view, GetFullSamples), both imported read-only; spec: coq/c11/C11Spec.v over C09Spec.v",
         "harness/c11: synthesizer of progressive/fragmented files and reader of produced segments (mp4ff's own "
         "encoders, decoders and Fragment.GetFullSamples are used to write inputs and read outputs)",
     ]
     ctx.assumptions += [
         "uint64 decode-time accumulators do not wrap (total duration < 2^63 ticks); sample counts < 2^32",
         "segmenter: at most one video and one audio track (documented in the tool's usage text); a video track exists",
-        "writing samples into a fragment, encoding, decoding and GetFullSamples is treated as the identity in the model; "
-        "it is checked end to end by the search only",
+        "end-to-end theorems: tables consistent (C09Spec.consistent), every sample's byte range inside the mdat payload resp. "
+        "the file (data_ok), every written fragment below 2 GiB (seg_guard / lazy_guard: int32 trun data offsets, C05-F5), "
+        "fewer than 2^32 samples; -lazy writer: one chunk-offset box per track; Resegment/Fragmentify decoded output: "
+        "contiguous decode times that fit uint64",
         "combine-segs: inputs do not rely on trex defaults (limitation documented in its source)",
     ]
     os.makedirs(TMP, exist_ok=True)
@@ -108,13 +141,21 @@ def run(ctx):
     distinct = len(set(l.split("\t", 2)[2] for l in lines if l.count("\t") >= 2))
     kinds = {}
     classes = {}
+    multi = {}
     for l in lines:
         f = l.split("\t")
         kinds[f[0]] = kinds.get(f[0], 0) + 1
         if f[0] in ("S", "T"):
             k = f[0] + ":" + f[4].split(":")[0]
             classes[k] = classes.get(k, 0) + 1
-    multi = {}
+        elif f[0] == "G" and len(f) == 19:
+            k = "G:%s:full=%s,copy=%s" % (f[2], f[15].split(":")[0], f[17].split(":")[0])
+            classes[k] = classes.get(k, 0) + 1
+        elif f[0] == "W":
+            k = "W:%s:%s" % (f[2], f[-1].split(":")[0])
+            classes[k] = classes.get(k, 0) + 1
+            if f[-1].startswith("ok:") and "+" in f[-1]:
+                multi["W"] = multi.get("W", 0) + 1
     for l in lines:
         f = l.split("\t")
         if f[0] in ("R", "F") and f[-1].startswith("ok:") and "," in f[-1]:
@@ -129,7 +170,9 @@ def run(ctx):
                                    "kinds": kinds, "outcome_classes": classes,
                                    "cases_with_two_or_more_output_pieces": multi}
     pick = [l for l in lines if l.startswith("S\tg")][:2] + [l for l in lines if l.startswith("S\tm")][:1] + \
-           [l for l in lines if l.startswith("T\t")][:2] + [l for l in lines if l[:1] in "RFM"][:3]
+           [l for l in lines if l.startswith("T\t")][:2] + [l for l in lines if l[:1] in "RFM"][:3] + \
+           [l for l in lines if l.startswith("G\tfv")][:1] + [l for l in lines if l.startswith("G\tfm")][:1] + \
+           [l[:120] + " ... " + l[-260:] for l in lines if l.startswith("W\t") and "+" in l][:1]
     ctx.cov["samples"] += [l[:400] for l in pick]
     ctx.log("correspondence: %d cases (%s), %d mismatches" % (len(lines), kinds, len(mism)))
 
@@ -163,28 +206,40 @@ def run(ctx):
                 by_id[p[1]] = l
         first = mism[0].split(" ")
         ctx.violation({"kind": "correspondence-mismatch",
-                       "correspondence": "C11Model vs examples/segmenter (tagged driver + built tool), resegmenter, "
-                                         "Fragmentify, combine-segs (harness c11 gen/corr)",
+                       "correspondence": "C11Model / C11FetchModel vs examples/segmenter (tagged driver: plan S, fetch G; "
+                                         "built tool: plan T, written segments W), resegmenter, Fragmentify, combine-segs "
+                                         "(harness c11 gen/corr)",
                        "mismatches": len(mism), "first_case": by_id.get(first[1], "")[:3000] if len(first) > 1 else "",
                        "model_says": mism[0][:3000]},
                       "model/implementation disagree on %d cases" % len(mism), no_input=True)
     ctx.proof_violation_if_broken(pr, "c11 search: %d evaluations, no failing input" % ctx.notes.get("search_evaluations", 0))
-    ctx.cov["rule"] = ("corr S: tagged driver on tables: exhaustive (1-2 stts runs over counts {1,2,3} x deltas {0,1,3}, every stss "
+    ctx.cov["rule"] = ("corr G: per-sample fetch through the tagged driver (GetFullSamplesForInterval, GetSamplesForInterval, "
+                       "copyMediaData, TranslateSampleFlagsForFragment on Go structs set from text): %d consistent table sets (1-14 "
+                       "samples, stts runs incl. zero-count entries, ctts runs incl. zero-count, explicit/uniform sizes incl. 0, 1-n "
+                       "chunks in file order or shuffled with gaps, stco/co64, stss, sdtp; mdat in memory / lazy) x 3 intervals, the "
+                       "model's result is also compared with the naive expansion and the theorems' hypotheses are evaluated; %d "
+                       "malformed sets (offsets outside the file / >= 2^63, missing boxes, both offset boxes, samples-per-chunk 0, "
+                       "wrong cached first sample, count mismatches, short ctts/sdtp/sizes, unsorted stss, truncated file, intervals "
+                       "with start 0 / end > N / empty); corr W: the built segmenter in modes single/lazy/mux/muxlazy on "
+                       "synthesized files: per track and written file the decoded samples (dts,dur,size,cto,flags,md5 of data) vs "
+                       "plan -> seg_track / seg_track_lazy / mux_segments -> read_back of the extracted model on the tables as "
+                       "DecodeFile sees them; corr S: tagged driver on tables: exhaustive (1-2 stts runs over counts {1,2,3} x deltas {0,1,3}, every stss "
                        "subset, d in {1,2,5} ms) + %d tables of synthesized files (1/3 with split runs / zero-count entries) + %d "
                        "malformed table sets (missing boxes, unsorted stss, zero timescales, count mismatches); corr T: the built "
                        "segmenter's printed plan on %d synthesized files; corr R/F/M: resegmenter tool, Fragmentify, combine-segs "
                        "split points, AddFullSampleToTrack interleavings (incl. unknown and duplicate ids), AddSampleDefaultValues on "
                        "all flag combinations; distinct = distinct case lines; search: deterministic grid (sync spacing x frame count x "
-                       "5 target durations x {v, v+a, a+v} x {single, lazy, mux}) + random built-tool runs on synthesized files (1-2 tracks, 1-36 "
+                       "5 target durations x {v, v+a, a+v} x {single, lazy, mux, muxlazy}) + random built-tool runs on synthesized files (1-2 tracks, 1-36 "
                        "video samples, sync spacing 1..12/irregular, ctts none/zero/positive/negative, durations constant/variable/"
-                       "zero, sdtp, 6 target-duration rules, modes single/lazy/mux, moov-first/mdat-first, stco/co64); resegmenter tool and "
+                       "zero, sdtp, 6 target-duration rules, modes single/lazy/mux/muxlazy (-m -lazy), moov-first/mdat-first, stco/co64); resegmenter tool and "
                        "Fragmentify on fragmented inputs (1-40 samples, 1-3 fragments per segment, 1-4 truns per traf in half of the "
                        "inputs, a second traf in 1/7, styp/no styp, init/no init, per-sample fields vs tfhd defaults vs "
                        "first-sample-flags (library OptimizeTrun and by hand), tfhd default-base-is-moof / no base flag / absolute "
                        "base-data-offset / base-data-offset with trun data-offset absent, edit list in the init, non-zero first "
                        "decode time, decode-time gaps in 1/12); combine-segs tool on pairs of single-fragment inputs; oracle = "
                        "concatenated per-track (bytes,dur,flags,cto,dts) of all outputs equals the input's + first video sample "
-                       "of each segment is sync" % (n, n, nt))
+                       "of each segment is sync; truncated inputs (end of the mdat missing) in all modes: the tool has to refuse "
+                       "them or conserve every sample" % (n // 3, n // 3, n, n, nt))
     shutil.rmtree(TMP, ignore_errors=True)
 
 
